@@ -73,8 +73,10 @@ def serve_cases(prop, tier, seed):
         g.fam_range_big(cb, n_pairs=1500 * k)
         g.fam_range_ignored(cb)
         g.fam_wide(cb, n=300 * k)
+        g.fam_lex_range(cb, n=5 if not T else 6)
     elif prop == "C04":
         g.fam_cond(cb, n=8000 * k, with_range=True, future=True)
+        g.fam_lex_tags(cb, n=4 if not T else 5)
     elif prop == "C05":
         g.fam_ifrange(cb, reps=1 if not T else 3)
         g.fam_range_multi(cb, n=300 * k, with_ifr=True)
@@ -95,6 +97,8 @@ def serve_cases(prop, tier, seed):
         g.fam_env(cb, n=12000 * k)
         g.fam_range_big(cb, n_pairs=1000 * k, methods=("GET", "HEAD", "POST"))
         g.fam_range_ignored(cb)
+        g.fam_lex_range(cb, n=4 if not T else 5)
+        g.fam_lex_tags(cb, n=4)
     elif prop == "C14":
         g.fam_clock(cb, pairs=2 if not T else 6)
         g.fam_echo(cb)
@@ -141,7 +145,7 @@ def serve_nontrivial(prop, c):
     if prop == "C20":
         return c.get("extra", 0) >= 1
     if prop == "C13":
-        return c["cls"].startswith("env") or c["cls"] in ("range_big", "range_ignored")
+        return c["cls"].startswith("env") or c["cls"] in ("range_big", "range_ignored", "lex_range", "lex_tags")
     if prop == "C14":
         return c["cls"] in ("echo", "meta") or a != {}
     if prop == "C15":
